@@ -326,6 +326,21 @@ def run_pattern(case):
                        {h: s for h, s in shared.items()},
                        {k: v for k, v in t.items() if v})))
                 break
+        if not viol and all(float(v).is_integer() for v in t.values()):
+            # the same whole-number crossing values as Python integers
+            as_int = {h: [(i, int(v)) for i, v in seq]
+                      for h, seq in mapping.items()}
+            try:
+                _, off_i = fit_mod.find_offsets(as_int)
+                got_i = [float(o) - float(off_i[-1]) for o in off_i]
+                if any(not abs(a - b) <= tol for a, b in zip(got_i, got)):
+                    viol.append((
+                        'integer-values-give-other-offsets',
+                        'values %r as integers: offsets %r, as floats %r'
+                        % ({k: v for k, v in t.items() if v}, got_i, got)))
+            except Exception as exc:  # pylint: disable=broad-except
+                viol.append(('crash:' + cs.exc_site(exc),
+                             'integer crossing values: %r' % (exc,)))
         # residual sums
         for i in range(n):
             total = 0.0
